@@ -287,3 +287,33 @@ Definition remove_doc (sel : list bool) (d : doc) : doc_result :=
 (* DetectWatermarks *)
 Definition detect_doc (d : doc) : bool :=
   d_ocg d && existsb (fun p => detect_page (pg_ct p)) (d_pages d).
+
+(* ---- the page tree ---- *)
+(* detectPageTreeWatermarks / detectPageTreeChildWatermarks: the kids of a /Pages node are visited in order;
+   the walk at every level stops as soon as the shared flag ctx.Watermarked is set; a /Page child
+   overwrites the flag with the result of findPageWatermarks; a /Pages child is walked recursively. *)
+Inductive ptree := PLeaf (p : page) | PNode (kids : list ptree).
+
+Fixpoint walk_tree (t : ptree) (w : bool) : bool :=
+  match t with
+  | PLeaf p => detect_page (pg_ct p)
+  | PNode kids =>
+      (fix walk_kids (ks : list ptree) (w : bool) : bool :=
+         match ks with
+         | [] => w
+         | k :: r => if w then w else walk_kids r (walk_tree k w)
+         end) kids w
+  end.
+
+(* pages in document order (what ctx.PageDict(pageNr) numbers) *)
+Fixpoint flatten (t : ptree) : list page :=
+  match t with
+  | PLeaf p => [p]
+  | PNode kids => flat_map flatten kids
+  end.
+
+Record tdoc := { t_ocg : bool; t_root : list ptree }.   (* the kids of the root /Pages node *)
+
+(* DetectWatermarks on a document with a page tree *)
+Definition detect_tdoc (d : tdoc) : bool := t_ocg d && walk_tree (PNode (t_root d)) false.
+Definition flat_doc (d : tdoc) : doc := {| d_ocg := t_ocg d; d_pages := flat_map flatten (t_root d) |}.
